@@ -107,10 +107,15 @@ pub enum After {
 
 /// Where emplacing `v` into `n` bytes that currently hold `old` fails: path of the first node (in
 /// emplacement order) that does not fit, and the state the target is left in. None if it fits.
-pub fn fit_failure(ty: &Ty, v: &Value, old: &Value, n: usize) -> Option<(Vec<u16>, After)> {
+///
+/// `loose_vec`: every FlatVec of the value is emplaced from an iterator whose size_hint lower bound is 0
+/// (route 0xF5): such an emplacer cannot check first; it resets the vector, fills it and fails when the
+/// capacity is exhausted, which leaves a valid vector holding the first `capacity` items (the recorded
+/// finding C18|unknown-length-iterator is about the content being changed, not about validity).
+pub fn fit_failure(ty: &Ty, v: &Value, old: &Value, n: usize, loose_vec: bool) -> Option<(Vec<u16>, After)> {
     // `old` is Some iff the node's region currently holds a valid value of the node's type (no enum
     // variant switch above it)
-    fn go(ty: &Ty, v: &Value, old: Option<&Value>, n: usize, path: &mut Vec<u16>) -> Option<(Vec<u16>, After)> {
+    fn go(ty: &Ty, v: &Value, old: Option<&Value>, n: usize, path: &mut Vec<u16>, loose_vec: bool) -> Option<(Vec<u16>, After)> {
         let untouched = if old.is_some() { After::Unchanged } else { After::MaybeInvalid };
         if n < model::min_size(ty) {
             return Some((path.clone(), untouched));
@@ -125,7 +130,7 @@ pub fn fit_failure(ty: &Ty, v: &Value, old: &Value, n: usize) -> Option<(Vec<u16
                     _ => None,
                 };
                 path.push(k as u16);
-                let r = go(&s.fields[k], &fs[k], child_old, n - offs[k], path);
+                let r = go(&s.fields[k], &fs[k], child_old, n - offs[k], path, loose_vec);
                 path.pop();
                 // the sized fields before the last one have been written by then
                 r.map(|(p, a)| (p, if a == After::Unchanged && k > 0 { After::ValidChanged } else { a }))
@@ -146,7 +151,7 @@ pub fn fit_failure(ty: &Ty, v: &Value, old: &Value, n: usize) -> Option<(Vec<u16
                             _ => None,
                         };
                         path.push(k as u16);
-                        let r = go(last, &fs[k], child_old, n - d - offs[k], path);
+                        let r = go(last, &fs[k], child_old, n - d - offs[k], path, loose_vec);
                         path.pop();
                         // the tag (and earlier fields) have been written by then
                         return r.map(|(p, a)| (p, if a == After::Unchanged && k > 0 { After::ValidChanged } else { a }));
@@ -154,7 +159,7 @@ pub fn fit_failure(ty: &Ty, v: &Value, old: &Value, n: usize) -> Option<(Vec<u16
                 }
                 None
             }
-            (Ty::FlatVec(..), Value::Vec(xs)) => (xs.len() > model::capacity(ty, n)).then(|| (path.clone(), untouched)),
+            (Ty::FlatVec(..), Value::Vec(xs)) => (xs.len() > model::capacity(ty, n)).then(|| (path.clone(), if loose_vec { After::ValidChanged } else { untouched })),
             (Ty::FlatString(_), Value::Str(s)) => (s.len() > model::capacity(ty, n)).then(|| (path.clone(), untouched)),
             (Ty::FlexVec(t, l), Value::Flex(xs)) => {
                 let a = model::align(ty);
@@ -167,7 +172,7 @@ pub fn fit_failure(ty: &Ty, v: &Value, old: &Value, n: usize) -> Option<(Vec<u16
                     }
                     path.push(i as u16);
                     // the item emplacer works inside the old chain's bytes (stale for the item)
-                    let r = go(t, x, None, n - pos - os, path);
+                    let r = go(t, x, None, n - pos - os, path, loose_vec);
                     path.pop();
                     if let Some((p, _)) = r {
                         // flex::FromIterator cannot know whether the item emplacer wrote anything and
@@ -185,7 +190,7 @@ pub fn fit_failure(ty: &Ty, v: &Value, old: &Value, n: usize) -> Option<(Vec<u16
             _ => None,
         }
     }
-    go(ty, v, Some(old), n, &mut vec![])
+    go(ty, v, Some(old), n, &mut vec![], loose_vec)
 }
 
 /// Equality of two values as the element types' `PartialEq` defines it: native floats compare
@@ -303,11 +308,19 @@ fn gen_step(ty: &Ty, dec: &Decoded, bytes: &[u8], t: &mut Tape, cfg: &HistCfg, s
             _ => Fuel::small(),
         };
         let nv2 = gen_value(nty, t, &mut fuel);
-        let fail = fit_failure(nty, &nv2, nv, nd.len);
+        let fail = fit_failure(nty, &nv2, nv, nd.len, false);
         // iterator-driven emplacers of unknown length cannot be transactional (known finding
-        // C18|unknown-length-iterator): failing assignments keep to exact-size routes; assignments that
+        // C18|unknown-length-iterator): failing assignments keep to exact-size routes, or - one in five -
+        // use the loose route for every FlatVec, in which case only validity is demanded; assignments that
         // fit also go through iterators with a loose size_hint
-        let route = if fail.is_none() { t.route(3) } else { t.route_exact(3) };
+        let mut route = if fail.is_none() { t.route(3) } else { t.route_exact(3) };
+        let loose = fail.is_some() && route[2] % 5 == 0;
+        let fail = if loose {
+            route = vec![0xF5; 3];
+            fit_failure(nty, &nv2, nv, nd.len, true)
+        } else {
+            fail
+        };
         let expect = match &fail {
             None => {
                 if model::encode(nty, &nv2, nd.len, 0, &mut Canonical).is_err() {
